@@ -11,7 +11,10 @@ import VerifModel.Model.CalendarLite
         - two/three fields: `to_float(start)`, `to_float(step)` (default 1), step == 0 → exit 1,
           `to_float(end)`; then
             numbers: `np.round(np.arange(start, end + sign(step)·0.0001, step), 7)`
-            dates  : `d = min(start, end'); while d <= max(start, end'): d = get_date(d, step)`
+            dates  : step not a whole number → error message, exit 1;
+                     step > 0: `d = min(start, end'); while d <= max(start, end'): d = get_date(d, step)`
+                     step < 0: `d = start; while d >= end': d = get_date(d, step)`
+                     (a ValueError of `get_date` → error message, exit 1)
         - more than three fields                         → error message, exit 1
     * dates: every value is truncated with `int()`.
 
@@ -35,7 +38,7 @@ abbrev Res := Except Err
 def Res.show (f : α → String) : Res α → String
   | .ok a => f a
   | .error .exit => "ERR"
-  | .error (.raise ty) => if ty == "Hang" then "HANG" else "EXC:" ++ ty
+  | .error (.raise ty) => "EXC:" ++ ty
 
 /-- characters accepted by the first check of `parse_numbers` -/
 def allowed (c : Char) : Bool :=
@@ -86,25 +89,57 @@ def arangeCount (start stop step : Rat) : Nat := ((stop - start) / step).ceil.to
 def rangeNums (a s b : Rat) : List Rat :=
   (List.range (arangeCount a (b + stepSign s * fudge) s)).map fun (k : Nat) => round7 (a + (k : Rat) * s)
 
+/-- day number of the first calendar date whose `YYYYMMDD` number is ≥ `n` (the dual of
+`lastDayLE`; `n` itself need not be a date).  Nothing precedes 0001-01-01 (`minDay`). -/
+def firstDayGE (n : Nat) : Nat :=
+  let t := ofYmd n
+  if t.y == 0 then minDay
+  else if t.m == 0 then days ⟨t.y, 1, 1⟩
+  else if t.m > 12 then days ⟨t.y + 1, 1, 1⟩
+  else if t.d == 0 then days ⟨t.y, t.m, 1⟩
+  else if t.d > daysInMonth t.y t.m then
+    (if t.m == 12 then days ⟨t.y + 1, 1, 1⟩ else days ⟨t.y, t.m + 1, 1⟩)
+  else days ⟨t.y, t.m, t.d⟩
+
 /-- the date loop of `parse_numbers(…, is_date=True)` for one `start[:step]:end` part.
-`datetime.timedelta(step)` with a fractional step advances the *date* by `⌊step⌋` days. -/
+
+    * a step that is not a whole number of days                → error message, exit 1
+    * step > 0: from `min(start, end')` up to `max(start, end')` (a reversed range is read ascending)
+    * step < 0: from `start` down to `end'` (empty when `start < end'`)
+    * the date the loop starts from is not a calendar date (`get_date` → `datetime(y, m, d)` raises
+      ValueError, which the loop turns into the message)        → error message, exit 1
+    * `get_date` is called once more after the last value that is kept; leaving 0001-01-01 … 9999-12-31
+      there is an unhandled OverflowError. -/
 def rangeDates (a s b : Rat) : Res (List Rat) :=
   let stop := b + stepSign s * fudge
-  let lo := min a stop
-  let hi := max a stop
-  let k := s.floor
-  if lo.floor < 0 then .error (.raise "ValueError")
-  else
-    let d0 := ofYmd lo.floor.toNat
-    if !d0.valid then .error (.raise "ValueError")      -- datetime(y, m, d) of the first get_date call
-    else if k < 0 then .error (.raise "OverflowError")   -- walks back to year 0
-    else if k = 0 then .error (.raise "Hang")            -- 0 < step < 1: the date never advances
+  if (s.floor : Rat) ≠ s then .error .exit
+  else if s > 0 then
+    let lo := min a stop
+    let hi := max a stop
+    let k := s.floor.toNat
+    if lo.floor < 0 then .error .exit
     else
-      let n0 := days d0
-      let cnt := (lastDayLE hi.floor.toNat - 1 - n0) / k.toNat + 1
-      if n0 + cnt * k.toNat > maxDay then .error (.raise "OverflowError")
-      else .ok ((lo.floor : Rat) ::
-        (List.range (cnt - 1)).map fun i => (((civil (n0 + (i + 1) * k.toNat)).ymd : Nat) : Rat))
+      let d0 := ofYmd lo.floor.toNat
+      if !d0.valid then .error .exit
+      else
+        let n0 := days d0
+        let cnt := (lastDayLE hi.floor.toNat - 1 - n0) / k + 1
+        if n0 + cnt * k > maxDay then .error (.raise "OverflowError")
+        else .ok ((lo.floor : Rat) ::
+          (List.range (cnt - 1)).map fun i => (((civil (n0 + (i + 1) * k)).ymd : Nat) : Rat))
+  else
+    if a < stop then .ok []
+    else if a.floor < 0 then .error .exit
+    else
+      let d0 := ofYmd a.floor.toNat
+      if !d0.valid then .error .exit
+      else
+        let k := (-s).floor.toNat
+        let n0 := days d0
+        let extra := (n0 - firstDayGE stop.ceil.toNat) / k
+        if n0 < minDay + (extra + 1) * k then .error (.raise "OverflowError")
+        else .ok ((a.floor : Rat) ::
+          (List.range extra).map fun i => (((civil (n0 - (i + 1) * k)).ymd : Nat) : Rat))
 
 /-- one colon-separated field after lexing -/
 inductive Fld where
